@@ -61,7 +61,7 @@ POINTS = {
 }
 REQUIRED_POINTS = list(POINTS)
 REQUIRED_CLAUSES = [history.CLAUSE, "L.range", "B<=i+0.05", "R.within-orbit",
-                    "kepler.direction", "kepler.radius",
+                    "kepler.direction", "kepler.direction(J2000-elements)", "kepler.radius",
                     "evaluator==direct-sum.L", "evaluator==direct-sum.B",
                     "evaluator==direct-sum.R", "evaluator==direct-sum.caller-tables", "fk5.correction",
                     "apparent.correction", "daily.longitude-increases",
@@ -193,6 +193,35 @@ def case_epoch(mon, planet, jde):
     mon.stat("kepler_radius_rel " + planet, abs(R0 / kr - 1.0), case)
     mon.check("kepler.radius", abs(R0 / kr - 1.0) <= 0.01,
               dict(case, R=R0, kepler_r=kr))
+    # ... and from the other set of mean elements the library offers, those
+    # referred to the standard equinox J2000.0: the Kepler direction is
+    # carried to the ecliptic of date with the library's own ecliptical
+    # precession (for the Earth, whose J2000 series the library has, also
+    # compared directly in the J2000 frame)
+    try:
+        from pymeeus.Angle import Angle
+        ej = cls.orbital_elements_j2000(e)
+        kj, krj, _M = kepler_pos(*ej)
+        lj, bj = sp.lonlat(kj)
+        ld, bd = C.precession_ecliptical(Epoch(J2000), e, Angle(lj),
+                                         Angle(bj))
+        dj = sp.sep(sp.vec(L0(), B0()), sp.vec(ld(), bd()))
+        mon.stat("kepler_direction_deg(J2000 elements) " + planet, dj, case)
+        mon.check("kepler.direction(J2000-elements)",
+                  dj <= KEPLER_TOL[planet] and abs(R0 / krj - 1.0) <= 0.01,
+                  lambda: dict(case, vsop=[L0(), B0()], kepler_sep_deg=dj,
+                               kepler_r=krj))
+        if planet == "Earth":
+            LJ, BJ, RJ = cls.geometric_heliocentric_position_j2000(
+                e, tofk5=False)
+            d2 = sp.sep(sp.vec(LJ(), BJ()), kj)
+            mon.check("kepler.direction(J2000-elements)",
+                      d2 <= KEPLER_TOL[planet],
+                      lambda: dict(case, vsop_j2000=[LJ(), BJ()],
+                                   kepler_sep_deg=d2))
+    except Exception as ex_:
+        mon.dev("kepler.direction(J2000-elements)",
+                dict(case, raised=repr(ex_)))
     # (d) evaluator against direct summation
     t = (jd - 2451545.0) / 365250.0
     try:
